@@ -18,6 +18,7 @@
 use core::sync::atomic::AtomicUsize;
 #[cfg(arc_swap_verif)]
 use arc_swap_verif_rt::atomic::AtomicUsize;
+use core::sync::atomic::fence;
 use core::sync::atomic::Ordering::*;
 
 #[cfg(arc_swap_verif)]
@@ -114,6 +115,13 @@ impl Debt {
 
                 None
             });
+            // A slot we did not pay may have been emptied by a reader that held a debt on this
+            // very pointer and returned it (with Release) just before we looked. We have seen that
+            // only through the Relaxed failure of the compare-exchange, but from now on whoever
+            // ends up with the last reference ‒ us or anybody we pass our counts to ‒ may destroy
+            // the pointee. Everything that reader did through its debt must happen before that,
+            // so turn all the reads above into acquiring ones.
+            fence(Acquire);
             // Implicit dec by dropping val in here, pair for the above
         })
     }
